@@ -285,9 +285,10 @@ PROPS = {
         "assumptions": ["zero-sized burn tensors are exercised only if burn can construct them"],
     },
     "C18": {
-        "obligations": [INI + n for n in ["init_length", "init_row", "init_row_length", "init_prefix", "init_det_eq_42", "init_with_seed_prefix"]],
+        "obligations": [INI + n for n in ["init_length", "init_row", "init_row_length", "init_prefix", "init_det_eq_42", "init_with_seed_prefix",
+                                          "init_flatten", "init_entry", "init_cell_injective", "init_depends_on_prefix"]],
         "level_text": "Theorems (induction on n, any element type, any stream): the layout model returns exactly n vectors of length d, row i holds variates i*d..i*d+d-1 (row-major consumption), "
-                      "the first n rows of a request for n+k rows equal the request for n rows, init_det = init_with_seed 42; seeded variants are functions of their arguments by construction. "
+                      "the first n rows of a request for n+k rows equal the request for n rows, init_det = init_with_seed 42; the concatenated rows are exactly the first n*d variates of the stream (each used once, in order: entry (i,j) is variate i*d+j, distinct cells read distinct variates), so entries inherit independence and the marginal law of the stream, and the result depends on the stream only through that prefix; seeded variants are functions of their arguments by construction. "
                       "Tied to core.rs by taking the variate stream from the largest real request and requiring the model to reproduce every smaller real request bit for bit; purity, seed-sensitivity, "
                       "finiteness, freshness of the OS-seeded init are predicates on the implementation.",
         "level_note": "Trusted: 'independent standard-normal' is a property of rand_distr::StandardNormal over SmallRng — supported by bit-equality with the reference stream when the code draws that way, "
